@@ -122,6 +122,11 @@ def confirm_artifact(binp, path):
 
 
 # ------------------------------------------------------------------ (c) structure-aware mutation through the CLI
+def _unbounded(applied):
+    """a file size field raised beyond 64 MiB legitimately asks for that much output; block size words and small sizes do not"""
+    return any(("size" in a[0] or "sparse" in a[0]) and "blk" not in a[0] and a[2] > (1 << 26) for a in applied)
+
+
 @st.composite
 def mut_cases(draw, tier="quick"):
     base = draw(st.integers(0, 2))
@@ -208,17 +213,17 @@ def check_mut_case(case, opts):
             cmd = [rd, "-x", case["path"], p]
         elif tool == "cat":
             # bounded: a mutated size field may legitimately ask for terabytes of zeros
-            if any("size" in a[0] or "blk" in a[0] or "sparse" in a[0] for a in applied):
+            if _unbounded(applied):
                 raise Inconclusive("cat of a file whose claimed size was enlarged is legitimately unbounded")
             cmd = [rd, "-c", case["path"], p]
         elif tool == "unpack":
-            if any("size" in a[0] or "blk" in a[0] or "sparse" in a[0] for a in applied):
+            if _unbounded(applied):
                 raise Inconclusive("unpack of a file whose claimed size was enlarged is legitimately unbounded")
             out = os.path.join(sc, "unp")
             os.mkdir(out)
             cmd = [rd, "-u", case["path"] if case["path"] in (b"/", b"/sub") else b"/", "-p", out, "-q", "-T", "-C", "-X", p]
         elif tool in ("sqfs2tar", "sqfs2tar_nohl"):
-            if any("size" in a[0] or "blk" in a[0] or "sparse" in a[0] for a in applied):
+            if _unbounded(applied):
                 raise Inconclusive("archive of a file whose claimed size was enlarged is legitimately unbounded")
             cmd = [vcommon.tool("asan", "sqfs2tar")] + (["-L"] if tool.endswith("nohl") else []) + [p]
         else:
